@@ -295,6 +295,50 @@ func writerMain(args []string) int {
 					nsc++
 					col.done([]byte(jsonOf(sc)), true, 1)
 				}
+				// --- follow-up: after an interrupted or failed write of a LONGER content, a complete write of a
+				// shorter one must publish exactly the shorter one (nothing left over may leak into it)
+				{
+					bigPad := pad + 300
+					shortB, err1 := referenceBytes(3, pad, name)
+					bigB, err2 := referenceBytes(4, bigPad, name)
+					if err1 != nil || err2 != nil {
+						report(base, Mismatch{Props: []string{"TOOL"}, What: "prepare", Note: fmt.Sprint(err1, err2)})
+					} else {
+						type first struct {
+							mode string
+							args []string
+						}
+						firsts := []first{}
+						for _, pt := range writePoints {
+							firsts = append(firsts, first{"crash at " + pt, []string{"-crash", pt}})
+						}
+						for _, k := range []int{len(shortB) + 20, len(bigB) / 2, len(bigB) - 1} {
+							firsts = append(firsts, first{fmt.Sprintf("write failing at offset %d", k), []string{"-fsize", fmt.Sprint(k)}})
+						}
+						for _, f := range firsts {
+							sc := base
+							sc.Mode, sc.Point = "followup", f.mode
+							dir, _, _ := prepareDir(hasOld, pad, name)
+							if !hasOld {
+								_ = os.MkdirAll(dir, 0o755)
+							}
+							code1, out1 := runChild(append([]string{"-dir", dir, "-name", name, "-v", "4", "-pad", fmt.Sprint(bigPad)}, f.args...), "")
+							code2, out2 := runChild([]string{"-dir", dir, "-name", name, "-v", "3", "-pad", fmt.Sprint(pad)}, "")
+							sc.Outcome = fmt.Sprint("exit ", code1, " then exit ", code2)
+							switch {
+							case code1 != 0 && code1 != 3 && code1 != 128+9:
+								report(sc, Mismatch{Props: []string{"TOOL"}, What: "child-failed", Got: code1, Note: out1})
+							case code2 != 0:
+								report(sc, Mismatch{Props: []string{"C10"}, What: "write-after-interrupted-write-failed", Got: code2, Note: out2})
+							default:
+								report(sc, inspectDir(dir, [][]byte{shortB}, "after a complete write that followed a "+f.mode+" of a longer content")...)
+							}
+							os.RemoveAll(filepath.Dir(dir))
+							nsc++
+							col.done([]byte(jsonOf(sc)), true, 2)
+						}
+					}
+				}
 				// --- strace: normal run and two failing ones, validated by TLC afterwards
 				if *straceDir != "" {
 					for i, k := range []int{-1, newLen / 2, 0} {
